@@ -53,7 +53,7 @@ class ConSrc:
     lab = i
 
 
-def witness(ctx: Ctx, src: SymSrc, extra: list = (), timeout_ms: int = 30000) -> Optional[dict]:
+def witness(ctx: Ctx, src: SymSrc, extra: list = (), timeout_ms: int = 30000, uf_fallback: bool = False) -> Optional[dict]:
     """Concrete inputs satisfying the current path condition (+extra) under
     IEEE-754 arithmetic; None if unsat there (artefact of the UF abstraction)."""
     s = z3.Solver()
@@ -70,7 +70,19 @@ def witness(ctx: Ctx, src: SymSrc, extra: list = (), timeout_ms: int = 30000) ->
     if r == 'unsat':
         return None
     if r != 'sat':
-        raise Inconclusive('IEEE confirmation query returned ' + r)
+        if not uf_fallback:
+            raise Inconclusive('IEEE confirmation query returned ' + r)
+        # z3 could not decide the IEEE query in time: take the model under the uninterpreted abstraction instead.  Its
+        # values are still concrete inputs; the replay on the real code -- not the solver -- decides what is reported.
+        s = z3.Solver()
+        for a in ctx.solver.assertions():
+            s.add(a)
+        for e in extra:
+            s.add(e)
+        r = timed_check(s, timeout_ms / 1000.0)
+        ctx.stats.queries[r] = ctx.stats.queries.get(r, 0) + 1
+        if r != 'sat':
+            raise Inconclusive('no witness: IEEE query undecided and UF query ' + r)
     m = s.model()
     return {
         'f': {n: model_float(m, z3.FP(n, F64)) for n in src.floats},
